@@ -497,6 +497,24 @@ class Cluster:
         raise HarnessError(fl)
 
 
+class MultiCluster(Cluster):
+    """All three command-line front ends over one job table (used where the property is about which
+    backend gets selected, C20)."""
+
+    EXE_FLAVOUR = {e: f for f, es in Cluster.EXES.items() for e in es}
+
+    def __init__(self, trace, first_id, **kw):
+        super().__init__("slurm", trace, first_id, **kw)
+
+    def which(self, name):
+        return f"/sim/bin/{name}" if name in self.EXE_FLAVOUR else None
+
+    def execute(self, argv, stdin):
+        exe = argv[0].rsplit("/", 1)[-1]
+        self.flavour = self.EXE_FLAVOUR.get(exe, self.flavour)
+        return super().execute(argv, stdin)
+
+
 class FakePopen:
     """Stands in for subprocess.Popen inside gwf.backends.utils."""
 
